@@ -4,6 +4,7 @@ import (
 	"encoding/json"
 	"fmt"
 	"math/rand"
+	"unicode"
 
 	"github.com/emersion/go-webdav/verifharness/doubles"
 	"github.com/emersion/go-webdav/verifharness/fw"
@@ -24,6 +25,11 @@ var nameSets = []nameSet{
 	{"hostile", []Name{"d v", "50%", "ü.日"}, Layout{
 		User: "al ice@ex.org", HS: "c%61l?", OtherUser: "bo#b", OtherHS: "...", NewColl: "n&w <c>", NewObj: "né w%2F.ics", Deeper: ".d",
 		Colls: []Coll{{"w#rk;1", []Name{"e?1 .ics", "%zz"}}, {"h\tme", nil}, {"😀", []Name{"a+b=c"}}}}},
+	// The other user and the other home set differ from the own ones in
+	// letter case only (paths are case-sensitive: they are other resources).
+	{"case", []Name{"Dav", "dav", "DAV"}, Layout{
+		User: "alice", HS: "Calendars", OtherUser: "Alice", OtherHS: "calendars", NewColl: "Work", NewObj: "EV1.ics", Deeper: "deeper",
+		Colls: []Coll{{"work", []Name{"ev1.ics", "Ev1.ics"}}, {"WORK", nil}, {"wOrk", []Name{"a"}}}}},
 	// Every segment is the same string: the arithmetic may not confuse the
 	// prefix with what lies below it.
 	{"repeat", []Name{"a", "a", "a"}, Layout{
@@ -171,6 +177,20 @@ func distinctNames(r *rand.Rand, k int) []Name {
 	return l
 }
 
+// swapCase changes the case of every letter that has another case.
+func swapCase(s string) string {
+	rs := []rune(s)
+	for i, c := range rs {
+		switch {
+		case unicode.IsUpper(c):
+			rs[i] = unicode.ToLower(c)
+		case unicode.IsLower(c):
+			rs[i] = unicode.ToUpper(c)
+		}
+	}
+	return string(rs)
+}
+
 func randCase(r *rand.Rand) Case {
 	cs := Case{Server: []string{"caldav", "carddav"}[r.Intn(2)], PrefixSlash: r.Intn(2) == 0}
 	for i, n := 0, r.Intn(4); i < n; i++ {
@@ -187,6 +207,13 @@ func randCase(r *rand.Rand) Case {
 	}
 	hs := distinctNames(r, 2)
 	l.HS, l.OtherHS = hs[0], hs[1]
+	// now and then the foreign names are the own ones in another letter case
+	if sw := swapCase(string(l.User)); r.Intn(5) == 0 && sw != string(l.User) && okName(Name(sw)) {
+		l.OtherUser = Name(sw)
+	}
+	if sw := swapCase(string(l.HS)); r.Intn(5) == 0 && sw != string(l.HS) && okName(Name(sw)) {
+		l.OtherHS = Name(sw)
+	}
 	ncoll := 1 + r.Intn(3)
 	cn := distinctNames(r, ncoll+1)
 	l.NewColl = cn[ncoll]
@@ -470,7 +497,7 @@ func init() {
 			}
 		},
 		Rule: "The real caldav.Handler / carddav.Handler run over a recording backend double whose layout (principal, home set, collections, objects) is placed below the mount prefix. " +
-			"Structural product (enumerated completely, both tiers): server x 3 fixed name sets x prefix of 0..3 segments x both spellings of Handler.Prefix x 3 layout styles x (level 0..5, own/foreign/missing target) x trailing-slash spelling x every request form; " +
+			"Structural product (enumerated completely, both tiers): server x 4 fixed name sets (plain, hostile, all-equal segments, foreign names differing from the own ones in letter case only) x prefix of 0..3 segments x both spellings of Handler.Prefix x 3 layout styles x (level 0..5, own/foreign/missing target) x trailing-slash spelling x every request form; " +
 			"plus the client discovery chain (FindCurrentUserPrincipal, Find*HomeSet, Find*s, Query*, MultiGet*, Get*Object) over net/http's client and an in-process transport from 4 entry points (well-known URI, prefix root in both spellings, principal). " +
 			"The rows with teeth are repeated under three equivalent escapings of the request target (the decoded path is identical; RFC 3986 6.2.2). " +
 			"Open method axis: every cell is also sent under further method tokens (MKCALENDAR, MKADDRESSBOOK, MKACTIVITY, BIND, LINK, PATCH, POST, LOCK, ACL, SEARCH, lower-case spellings, made-up tokens, with and without a creation-style body) and judged by backend effect only: whatever the status, the backend is asked to create a collection only by a request at collection depth and for the request path; other mutations must belong to the level addressed. This creation rule holds for every method except MKCOL (own row) and COPY/MOVE (left open). " +
